@@ -661,3 +661,35 @@ Proof.
     destruct (qrun q1 r) as [[q2 os']|] eqn:E2; [|discriminate]. injection H as <- <-.
     eapply IH; [|eauto]. econstructor; eauto.
 Qed.
+
+(* after close: nothing more is accepted, what is buffered is still handed out from the head, and
+   StreamClosed reaches a receiver only once the buffer is empty *)
+Theorem close_drains_then_raises q t q' o : qreachable q -> closed q = true ->
+  qstep q t = Some (q', o) ->
+  accepted q' = accepted q /\ closed q' = true /\
+  (receiver_of t <> None -> o = OClosed -> buf q = [] /\ buf q' = []) /\
+  (forall x, o = OGot x -> buf q = x :: buf q') /\
+  (buf q <> [] -> o <> OClosed \/ receiver_of t = None).
+Proof.
+  intros R C H. pose proof (step_spec _ _ _ _ R H) as S. pose proof (closed_monotone _ _ _ _ H C) as C'.
+  destruct o.
+  - destruct S as [_ S].
+    assert (A : accepted q' = accepted q).
+    { destruct t; try tauto. destruct S as (F & _). congruence. }
+    repeat split; auto; try discriminate. intros _. left. discriminate.
+  - destruct S as (r & _ & B & _ & _ & A & _). repeat split; auto; try discriminate.
+    + intros y [= ->]. auto.
+    + intros _. left. discriminate.
+  - destruct S as (_ & _ & B & A & _ & E). repeat split; auto; try discriminate.
+    + rewrite B. auto.
+    + intros NB. right. destruct (receiver_of t); auto. exfalso. apply NB. apply E. discriminate.
+  - destruct S as (r & -> & _ & B & _ & A & _). repeat split; auto; try discriminate.
+    intros _. left. discriminate.
+  - destruct S.
+Qed.
+
+Example ex_cancel_after_wake_keeps_item :
+  (* receiver 0 waits for an item, put 7 wakes it, it is cancelled before resuming, receiver 1 gets 7 *)
+  option_map snd (qrun qinit [Get 0; Get 1; Put 7; Foreign 0; MutexWake 1; PostponeDone 1])
+  = Some [ONone; ONone; ONone; ORaised; ONone; OGot 7].
+Proof. reflexivity. Qed.
